@@ -27,6 +27,36 @@ func strJoin(joiner, subject rel.Value) (rel.Value, error) {
 	return nil, fmt.Errorf("join: sep not a string: %v", joiner)
 }
 
+// bytesArrayJoin joins an array of byte arrays with a byte-array joiner.
+func bytesArrayJoin(joiner rel.Value, subject rel.Array) (rel.Value, error) {
+	asBytes := func(v rel.Value) ([]byte, bool) {
+		switch v := v.(type) {
+		case rel.Bytes:
+			return v.Bytes(), true
+		case rel.EmptySet:
+			return nil, true
+		}
+		return nil, false
+	}
+	j, is := asBytes(joiner)
+	if !is {
+		return nil, fmt.Errorf("join: joiner not a byte array: %v", joiner)
+	}
+	parts := make([][]byte, 0, subject.Count())
+	for i, value := range subject.Values() {
+		part, is := asBytes(value)
+		if !is {
+			return nil, fmt.Errorf("join: array item %d not a byte array: %v", i, value)
+		}
+		parts = append(parts, part)
+	}
+	joined := bytes.Join(parts, j)
+	if len(joined) == 0 {
+		return rel.None, nil
+	}
+	return rel.NewBytes(joined), nil
+}
+
 func stdSeqConcat(_ context.Context, seq rel.Value) (rel.Value, error) {
 	if set, is := seq.(rel.Set); is {
 		if !set.IsTrue() {
@@ -105,6 +135,15 @@ func stdSeqJoin(_ context.Context, joiner, subject rel.Value) (rel.Value, error)
 		}
 		if _, isStr := joiner.(rel.String); isStr {
 			return strJoin(joiner, subject)
+		}
+		// Likewise an array of byte arrays (an empty one is the empty set).
+		for _, value := range subject.Values() {
+			if _, isBytes := value.(rel.Bytes); isBytes {
+				return bytesArrayJoin(joiner, subject)
+			}
+		}
+		if _, isBytes := joiner.(rel.Bytes); isBytes {
+			return bytesArrayJoin(joiner, subject)
 		}
 		return arrayJoin(joiner, subject)
 	case rel.Bytes:
